@@ -119,7 +119,7 @@ def struct_all_fields(model, ns_name, s):
     req, opt = [], []
     for cns, cs in chain:
         for f in mm.own_members(model, cns, cs):
-            if isinstance(f.type, N) or f.default != NODEF:
+            if mm.is_nullable(model, cns, f.type) or f.default != NODEF:      # nullable also through an alias
                 opt.append(f.name)
             else:
                 req.append(f.name)
@@ -152,13 +152,9 @@ def typesig(model, ns_name, d):
     if isinstance(d, Struct):
         o['fields'] = [fsig(model, ns_name, f, True) for f in members]
         req, opt = struct_all_fields(model, ns_name, d)
-        if _alias_nullable_in_chain(model, ns_name, d):
-            # whether an alias of a nullable type makes a field "optional" is not settled by backend_ref.rst
-            o['all_fields_set'] = sorted(req + opt)
-        else:
-            o['all_fields'] = req + opt
-            o['all_required_fields'] = req
-            o['all_optional_fields'] = opt
+        o['all_fields'] = req + opt
+        o['all_required_fields'] = req
+        o['all_optional_fields'] = opt
         if d.subtypes is not None:
             closed, subs = d.subtypes
             tags = [[t, [ns_name, r.name]] for t, r in subs]
